@@ -114,9 +114,9 @@ def site(cfg):
     return "combinatorial" if cfg["mapping"] == "COMB" else "fermion_to_qubit_mapping"
 
 
-def encode(cfg, op):
+def encode(cfg, op, fop=None):
     """Call the real code; returns a mc.ref.pauli operator. Exceptions propagate."""
-    fop = mk_fop(op)
+    fop = mk_fop(op) if fop is None else fop
     with warnings.catch_warnings():
         warnings.simplefilter("ignore")
         if cfg["mapping"] == "COMB":
@@ -151,7 +151,20 @@ class Ctx:
         if cache_key is not None and cache_key in self.cache:
             return self.cache[cache_key]
         try:
-            E = encode(self.cfg, op)
+            fop = mk_fop(op)
+            before = dict(fop.terms)
+            E = encode(self.cfg, op, fop)
+            # history: the operand must be left unchanged and mapping the SAME object again must give the same image
+            # (caches / in-place scaling inside the mapping would show here)
+            self.acc.ev()
+            if dict(fop.terms) != before:
+                self.bad("operand-mutated", dict(case, failing_input=op_to_json(op)), {"input": F.op_to_str(op)})
+            else:
+                E2 = encode(self.cfg, op, fop)
+                E3 = encode(self.cfg, op, fop)
+                if P.max_abs_diff(E, E2) > 1e-12 or P.max_abs_diff(E, E3) > 1e-12:
+                    self.bad("second-mapping-of-same-object-differs", dict(case, failing_input=op_to_json(op)),
+                             {"input": F.op_to_str(op), "first": P.to_str(E)[:200], "second": P.to_str(E2)[:200], "third": P.to_str(E3)[:200]})
         except Exception as e:  # in-domain input: must not raise
             kind = f"exception/{type(e).__name__}:{slug(e)}"
             self.bad(kind, dict(case, failing_input=op_to_json(op)), {"err": repr(e)[:300], "input": F.op_to_str(op)})
@@ -352,6 +365,22 @@ def hcb_generators(nsp):
                     for (u, v) in (e2, e2[::-1]):
                         g[x, u, v, y] = 1       # (xy|uv) -> g[p=x, q=u, r=v, s=y]
             gens.append((f"g({i}{j}|{k}{l})", 0.0, z1(), g))
+    # real two-body classes with only the 4-fold symmetry of a Hermitian spin-free operator (complex orbitals / general
+    # effective Hamiltonians): g[pqrs] = g[qpsr] = g[srqp] = g[rspq], NOT symmetric under p<->s or q<->r alone.
+    seen = set()
+    for t in itertools.product(range(nsp), repeat=4):
+        p_, q_, r_, s_ = t
+        orbit = frozenset([(p_, q_, r_, s_), (q_, p_, s_, r_), (s_, r_, q_, p_), (r_, s_, p_, q_)])
+        if orbit in seen:
+            continue
+        seen.add(orbit)
+        eight = orbit | frozenset([(s_, q_, r_, p_), (p_, r_, q_, s_), (q_, s_, p_, r_), (r_, p_, s_, q_)])
+        if eight == orbit:
+            continue      # already 8-fold symmetric: covered above
+        g = z2()
+        for idx in orbit:
+            g[idx] = 1
+        gens.append((f"g4[{p_}{q_}{r_}{s_}]", 0.0, z1(), g))
     # complex-Hermitian pair hopping: (01|01) = i, (10|10) = -i
     g = z2()
     g[0, 0, 1, 1], g[1, 1, 0, 0] = 1j, -1j
